@@ -314,4 +314,245 @@ theorem lookupLast_eq_first {α : Type} (m : List (String × α)) (h : (keys m).
     rw [List.mem_reverse] at hm
     exact (lookupFirst_of_mem m h k v hm).symm
 
+/-! ### `plainAttrs`: the attribute stream of spans and metrics -/
+
+theorem plainAttrs_isOk (lifted : String → Bool) : (ps : List (String × PV)) →
+    (∀ p ∈ ps, lifted p.1 = false → p.2.image.KeysOk) → (plainAttrs lifted ps).isOk = true
+  | [], _ => rfl
+  | (k, v) :: rest, h => by
+    simp only [plainAttrs, Enc.isOk_bind]
+    have hrest := plainAttrs_isOk lifted rest (fun p hp => h p (List.mem_cons_of_mem _ hp))
+    obtain ⟨bs, hbs⟩ := (Enc.isOk_iff _).mp hrest
+    unfold plainAttr
+    by_cases hl : lifted k = true
+    · simp only [hl, if_true]
+      exact ⟨[], rfl, bs, hbs, rfl⟩
+    · have hl' : lifted k = false := by simpa using hl
+      obtain ⟨a, ha⟩ := (Enc.isOk_iff _).mp ((anyValue_isOk v.image).mpr (h (k, v) (by simp) hl'))
+      simp only [hl', Bool.false_eq_true, if_false, ha, Enc.bind]
+      exact ⟨_, rfl, bs, hbs, rfl⟩
+
+/-- the attribute keys are exactly the non-lifted property keys, in order -/
+theorem plainAttrs_keys (lifted : String → Bool) : ∀ (ps : List (String × PV)) as, plainAttrs lifted ps = .ok as →
+    keys as = (keys ps).filter fun k => !lifted k
+  | [], as, h => by simp [plainAttrs] at h; subst h; rfl
+  | (k, v) :: rest, as, h => by
+    simp only [plainAttrs] at h
+    obtain ⟨as1, h1, h⟩ := (Enc.bind_ok_iff _ _ _).mp h
+    obtain ⟨as2, h2, h⟩ := (Enc.bind_ok_iff _ _ _).mp h
+    cases h
+    have ih := plainAttrs_keys lifted rest as2 h2
+    unfold plainAttr at h1
+    by_cases hl : lifted k = true
+    · simp only [hl, if_true] at h1
+      cases h1
+      simp only [keys, List.map_cons, List.filter_cons, hl, Bool.not_true, Bool.false_eq_true, if_false,
+        List.nil_append]
+      exact ih
+    · have hl' : lifted k = false := by simpa using hl
+      simp only [hl', Bool.false_eq_true, if_false] at h1
+      obtain ⟨a, _, h1⟩ := (Enc.bind_ok_iff _ _ _).mp h1
+      cases h1
+      simp only [keys, List.map_cons, List.filter_cons, hl', Bool.not_false, if_true, List.cons_append,
+        List.nil_append]
+      simp only [keys] at ih
+      rw [ih]
+
+theorem plainAttrs_mem (lifted : String → Bool) : ∀ (ps : List (String × PV)) as, plainAttrs lifted ps = .ok as →
+    ∀ k v, (k, v) ∈ ps → lifted k = false → ∃ a, anyValue v.image = .ok a ∧ (k, a) ∈ as
+  | [], _, _, _, _, hm, _ => by simp at hm
+  | (k', v') :: rest, as, h, k, v, hm, hl => by
+    simp only [plainAttrs] at h
+    obtain ⟨as1, h1, h⟩ := (Enc.bind_ok_iff _ _ _).mp h
+    obtain ⟨as2, h2, h⟩ := (Enc.bind_ok_iff _ _ _).mp h
+    cases h
+    rcases List.mem_cons.mp hm with hm | hm
+    · cases hm
+      unfold plainAttr at h1
+      simp only [hl, Bool.false_eq_true, if_false] at h1
+      obtain ⟨a, ha, h1⟩ := (Enc.bind_ok_iff _ _ _).mp h1
+      cases h1
+      exact ⟨a, ha, by simp⟩
+    · obtain ⟨a, ha, hin⟩ := plainAttrs_mem lifted rest as2 h2 k v hm hl
+      exact ⟨a, ha, List.mem_append_right _ hin⟩
+
+theorem plainAttrs_nodup (lifted : String → Bool) (ps : List (String × PV)) (as : List (String × AnyValue))
+    (h : plainAttrs lifted ps = .ok as) (hnd : (keys ps).Nodup) : (keys as).Nodup := by
+  rw [plainAttrs_keys lifted ps as h]
+  exact hnd.filter _
+
+/-- a panic of the attribute stream comes from a non-lifted value the bridge rejects -/
+theorem plainAttrs_panic (lifted : String → Bool) : ∀ (ps : List (String × PV)), plainAttrs lifted ps = .panic →
+    ∃ p ∈ ps, lifted p.1 = false ∧ ¬ p.2.image.KeysOk := by
+  intro ps h
+  apply Classical.byContradiction
+  intro hne
+  have : ∀ p ∈ ps, lifted p.1 = false → p.2.image.KeysOk := by
+    intro p hp hl
+    apply Classical.byContradiction
+    intro hk
+    exact hne ⟨p, hp, hl, hk⟩
+  have := plainAttrs_isOk lifted ps this
+  rw [h] at this
+  simp at this
+
+/-- the hypothesis of `log_total_partial` in terms of the properties as emitted -/
+theorem propsKeysOk_of_props (e : Event) (h : PropsKeysOk e.props) : PropsKeysOk e.deduped := by
+  intro p hp
+  have hk : p.1 ∈ keys e.deduped := List.mem_map.mpr ⟨p, hp, rfl⟩
+  -- a de-duplicated entry is an entry of the original list
+  have : p ∈ e.props := by
+    unfold Event.deduped dedup at hp
+    split at hp
+    · exact hp
+    · have aux : ∀ (ps acc : List (String × PV)), (∀ q ∈ dedupSorted acc ps, q ∈ acc ∨ q ∈ ps) := by
+        intro ps
+        induction ps with
+        | nil => intro acc q hq; simp [dedupSorted] at hq; exact Or.inl hq
+        | cons x rest ih =>
+          intro acc q hq
+          obtain ⟨k, v⟩ := x
+          simp only [dedupSorted] at hq
+          rcases ih _ q hq with h1 | h1
+          · rcases insertFirst_mem k v acc q h1 with h2 | h2
+            · exact Or.inr (by simp [h2])
+            · exact Or.inl h2
+          · exact Or.inr (List.mem_cons_of_mem _ h1)
+      rcases aux e.props [] p hp with h1 | h1
+      · simp at h1
+      · exact h1
+  exact h p this
+
+
+theorem keysOk_of_lookup (ps : List (String × PV)) (h : PropsKeysOk ps) (k : String) (v : PV)
+    (hv : lookupFirst k ps = some v) : v.image.KeysOk :=
+  h (k, v) (mem_of_lookupFirst ps k v hv)
+
+
+/-! ### metrics -/
+
+/-- the anatomy of a successfully encoded metric -/
+theorem metricBody_ok (e : Event) (value : PV) (r : MetricRecord) (h : metricBody e value = some (.ok r)) :
+    ∃ attrs pts data points, metricAttrs e.deduped = .ok attrs ∧ extractPts false value.image = some pts ∧
+      metricPoints ((lookupFirst "metric_agg" e.props).bind PV.str?) (metricTimes e.extent).1
+        (metricTimes e.extent).2.1 (metricTimes e.extent).2.2 attrs pts = some (data, points) ∧
+      r = ⟨e.mdl, nameOr "metric_name" e,
+        (match lookupLast "metric_unit" e.deduped with | some u => u.display | none => ""), data, points⟩ := by
+  unfold metricBody at h
+  cases hma : metricAttrs e.deduped with
+  | panic => simp [hma] at h
+  | ok attrs =>
+    cases hep : extractPts false value.image with
+    | none => simp [hma, hep] at h
+    | some pts =>
+      cases hmp : metricPoints ((lookupFirst "metric_agg" e.props).bind PV.str?) (metricTimes e.extent).1
+          (metricTimes e.extent).2.1 (metricTimes e.extent).2.2 attrs pts with
+      | none => simp [hma, hep, hmp] at h
+      | some dp =>
+        obtain ⟨data, points⟩ := dp
+        simp only [hma, hep, hmp, Option.some.injEq, Enc.ok.injEq] at h
+        exact ⟨attrs, pts, data, points, rfl, rfl, hmp, h.symm⟩
+
+
+/-- every data point of a metric carries the same attributes -/
+theorem metricPoints_attrs (agg : Option String) (s t temp : Nat) (attrs : List (String × AnyValue)) (pts : List Pt)
+    (data : MetricData) (points : List DataPoint) (h : metricPoints agg s t temp attrs pts = some (data, points)) :
+    ∀ p ∈ points, p.attributes = attrs := by
+  unfold metricPoints at h
+  split at h
+  · cases h; simp
+  · split at h
+    · cases h; simp
+    · simp only [Option.map_eq_some_iff] at h
+      obtain ⟨ps, hps, hp⟩ := h
+      cases hp
+      unfold gaugePoints at hps
+      split at hps
+      · cases hps
+      · cases hps; simp
+      · cases hps
+        intro p hp
+        simp only [List.mem_map] at hp
+        obtain ⟨⟨⟨_, _⟩, _⟩, _, rfl⟩ := hp
+        rfl
+
+
+theorem zip_values (attrs : List (String × AnyValue)) : ∀ (ts : List (Nat × Nat)) (qs : List Pt),
+    ts.length = qs.length →
+    ((ts.zip qs).map fun (x : (Nat × Nat) × Pt) => (⟨x.1.1, x.1.2, x.2, attrs⟩ : DataPoint)).map (·.value) = qs
+  | [], [], _ => rfl
+  | [], _ :: _, h => by simp at h
+  | _ :: _, [], h => by simp at h
+  | t :: ts, q :: qs, h => by
+    simp only [List.length_cons, Nat.add_right_cancel_iff] at h
+    simp only [List.zip_cons_cons, List.map_cons, List.cons.injEq, true_and]
+    exact zip_values attrs ts qs h
+
+
+/-! ### structure is preserved as far as OTLP can express it -/
+
+mutual
+/-- an OTLP value read back as a structured value: the shapes OTLP can express -/
+def embed : AnyValue → V
+  | .empty => .null
+  | .str s => .text s
+  | .bool b => .bool b
+  | .int i => .int i
+  | .dbl bits => .f64 bits "" ""
+  | .arr xs => .seq (embedList xs)
+  | .kv kvs => .map (embedEntries kvs)
+  | .bytes bs => .bytes bs
+def embedList : List AnyValue → List V
+  | [] => []
+  | x :: xs => embed x :: embedList xs
+def embedEntries : List (String × AnyValue) → List (V × V)
+  | [] => []
+  | (k, v) :: rest => (.text k, embed v) :: embedEntries rest
+end
+
+mutual
+/-- OTLP integers are 64-bit -/
+def IntsFit : AnyValue → Prop
+  | .int i => inI64 i = true
+  | .arr xs => IntsFitList xs
+  | .kv kvs => IntsFitEntries kvs
+  | _ => True
+def IntsFitList : List AnyValue → Prop
+  | [] => True
+  | x :: xs => IntsFit x ∧ IntsFitList xs
+def IntsFitEntries : List (String × AnyValue) → Prop
+  | [] => True
+  | (_, v) :: rest => IntsFit v ∧ IntsFitEntries rest
+end
+
+mutual
+/-- STRUCTURE PRESERVED: every value OTLP can express — null, strings, booleans, 64-bit integers, doubles (bit for
+    bit), byte strings, arrays (element by element, `null` elements included) and string-keyed maps (entry by
+    entry, in order), nested to any depth — goes through the any-value bridge unchanged. The documented losses
+    are exactly the shapes outside this image: integers beyond 64 bits become decimal text
+    (`any_value_wide_int`), records / variants become maps / their payload, non-text keys become text. -/
+theorem structure_preserved_value : (a : AnyValue) → IntsFit a → anyValue (embed a) = .ok a
+  | .empty, _ => rfl
+  | .str _, _ => rfl
+  | .bool _, _ => rfl
+  | .int i, h => by simp only [embed, anyValue]; rw [show inI64 i = true from h]; rfl
+  | .dbl _, _ => rfl
+  | .bytes _, _ => rfl
+  | .arr xs, h => by
+    simp only [embed, anyValue, structure_preserved_list xs h, Enc.bind]
+  | .kv kvs, h => by
+    simp only [embed, anyValue, structure_preserved_entries kvs h, Enc.bind]
+theorem structure_preserved_list : (xs : List AnyValue) → IntsFitList xs → anyElems (embedList xs) = .ok xs
+  | [], _ => rfl
+  | x :: xs, h => by
+    simp only [embedList, anyElems, structure_preserved_value x h.1, structure_preserved_list xs h.2, Enc.bind]
+theorem structure_preserved_entries : (kvs : List (String × AnyValue)) → IntsFitEntries kvs →
+    anyEntries (embedEntries kvs) = .ok kvs
+  | [], _ => rfl
+  | (k, v) :: rest, h => by
+    simp only [embedEntries, anyEntries, anyKey, structure_preserved_value v h.1, structure_preserved_entries rest h.2,
+      Enc.bind]
+end
+
+
 end EmitModel.Encode
